@@ -151,3 +151,33 @@ def deposit_pool_index(v, model, operand, at, proj=()):
                                 if r.kind == "call" and r.a.endswith("query_pools") and r.proj and r.proj[-1] == "info":
                                     found.add(r.proj[0])
     return sorted(found) or ["?"]
+
+
+def loop_bounds(v):
+    """Constant upper bounds of `for _ in 0..N` / `0..=N` loops in a function."""
+    from ..dataflow import const_of
+    out = []
+    for b, i, s_ in v.iter_stmts():
+        rv = s_["rv"]
+        if rv["r"] == "agg" and rv.get("adt", "").endswith("ops::Range") and "end" in rv.get("fields", []):
+            k = const_of(v, rv["ops"][rv["fields"].index("end")], (b, i))
+            if k is not None:
+                out.append(int(k))
+    for b, t in v.calls_to(r"^std::ops::RangeInclusive::new$"):
+        k = const_of(v, t["args"][1], v.at_term(b))
+        if k is not None:
+            out.append(int(k) + 1)
+    return out
+
+
+def check_solver_bounds_agree(ctx, rule):
+    """The two deposit-side invariant solvers (pair helpers::compute_d, 3-pool StableSwap::compute_d) return their last
+    iterate without signalling non-convergence, so the iteration budget is part of the result for very unbalanced pools:
+    the two sibling implementations must use the same constant bound (cross-check of siblings; today 256)."""
+    a = ctx.view("terraswap_pair::helpers::compute_d", rule)
+    b = ctx.view("stableswap_3pool::stableswap_math::curve::StableSwap::compute_d", rule)
+    if a is None or b is None:
+        return
+    ba, bb = loop_bounds(a), loop_bounds(b)
+    ctx.ob(rule, "compute_d|iteration-bounds-agree", len(ba) == 1 and ba == bb,
+           "Newton iteration bounds: pair %s, 3-pool %s (must be one constant each, equal)" % (ba, bb), a.where())
